@@ -1,5 +1,5 @@
 """C05 — hash table: concurrent ops linearizable; resident nodes never missed (partial)."""
-from . import lfht
+from . import lfht, c09
 
 META = {
     "explanation": "All-paths rules on liburcu-cds: publication order of new nodes (next set, same snapshot, then cmpxchg; reverse_hash before size is sampled), reader filter atoms of "
@@ -19,5 +19,8 @@ RULES = [
     ("C05.replace", lambda c, r: lfht.rule_replace(c, r, "C05.replace")),
     ("C05.del", lambda c, r: lfht.rule_del(c, r, "C05.del")),
     ("C05.gc", lambda c, r: lfht.rule_gc(c, r, "C05.gc")),
+    ("C05.iter", lambda c, r: lfht.rule_iter(c, r, "C05.iter")),
+    ("C05.chain", lambda c, r: lfht.rule_chain(c, r, "C05.chain")),
+    ("C05.partition", lambda c, r: c09.rule_partition(c, r, "C05.partition")),
 ]
 FLOORS = {}
